@@ -215,6 +215,10 @@ func init() {
 		a, b := f.strOfSlice(args[0], st), f.strOfSlice(args[1], st)
 		return []Val{Sc{f.in.hasPrefixUF(a, b)}}
 	}
+	externs[".error.Error"] = func(f *Frame, call *ast.CallExpr, recv Val, args []Val, st *State) []Val {
+		f.in.D.declareFun("err_msg", []string{SErr}, SStr)
+		return []Val{Sc{App("err_msg", SStr, recv.(Sc).T)}}
+	}
 	externs["errors.New"] = func(f *Frame, call *ast.CallExpr, recv Val, args []Val, st *State) []Val {
 		return []Val{Sc{f.errFresh(st, "errnew")}}
 	}
